@@ -1799,6 +1799,8 @@ namespace avel {
         auto quotient_even = _mm_cvttps_epi32(_mm_div_ps(x_even, y_even));
         auto quotient_odd  = _mm_cvttps_epi32(_mm_div_ps(x_odd,  y_odd ));
 
+        // Division by zero converts to 0x80000000, which must not leak into the neighbouring lane
+        quotient_even = _mm_and_si128(quotient_even, even_mask);
         auto quotient = _mm_or_si128(quotient_even, _mm_slli_epi32(quotient_odd, 16));
 
         auto offset = _mm_mullo_epi16(decay(y), quotient);
